@@ -1385,3 +1385,76 @@ M("C10-absence-update-skips-solo-workers", "C10", "R10.2b", TM,
             if skip_solo and worker.solo_working and len(worker.assigned_task_list) > 0:
                 continue
             worker.check_update_state_from_absence_time_list(step_time)""")
+# ---------------------------------------------------------------------------------------- round 6 rules
+M("C12-task-equality-by-id", "C12", "R0.2", TK,
+  """    def __str__(self):
+        \"\"\"str.
+
+        Returns:
+            str: name of BaseTask""",
+  """    def __eq__(self, other):
+        return isinstance(other, BaseTask) and self.ID == other.ID
+
+    def __hash__(self):
+        return hash(self.ID)
+
+    def __str__(self):
+        \"\"\"str.
+
+        Returns:
+            str: name of BaseTask""")
+B("benign-task-equality-is-identity", ["C12", "C01", "C17"], TK,
+  """    def __str__(self):
+        \"\"\"str.
+
+        Returns:
+            str: name of BaseTask""",
+  """    def __eq__(self, other):
+        return self is other
+
+    def __hash__(self):
+        return id(self)
+
+    def __str__(self):
+        \"\"\"str.
+
+        Returns:
+            str: name of BaseTask""")
+M("C16-dump-raw-unicode", "C16", "R16.6", PJ,
+  """json.dump(dict_data, f, indent=indent)""",
+  """json.dump(dict_data, f, indent=indent, ensure_ascii=False)""")
+B("benign-dump-sorted-keys-explicit-ascii", ["C16"], PJ,
+  """json.dump(dict_data, f, indent=indent)""",
+  """json.dump(dict_data, f, indent=indent, ensure_ascii=True)""")
+M("C17-log-reversal-indexes-before-restore", "C17", "R17.6", PJ,
+  """        total_step_length = len(self.cost_list)""",
+  """        total_step_length = max((len(t.state_record_list) for t in self.workflow.task_list))""")
+M("C10-sticky-auto-task-flag", "C10", "R10.6", PJ,
+  """        self.absence_time_list = list(absence_time_list)
+        self.perform_auto_task_while_absence_time = perform_auto_task_while_absence_time""",
+  """        self.absence_time_list = list(absence_time_list)
+        perform_auto_task_while_absence_time = perform_auto_task_while_absence_time or self.perform_auto_task_while_absence_time
+        self.perform_auto_task_while_absence_time = perform_auto_task_while_absence_time""")
+M("C20-sticky-auto-task-flag", "C20", "R10.6", PJ,
+  """        self.absence_time_list = list(absence_time_list)
+        self.perform_auto_task_while_absence_time = perform_auto_task_while_absence_time""",
+  """        self.absence_time_list = list(absence_time_list)
+        perform_auto_task_while_absence_time = perform_auto_task_while_absence_time or self.perform_auto_task_while_absence_time
+        self.perform_auto_task_while_absence_time = perform_auto_task_while_absence_time""")
+M("C06-space-counts-parts-twice", "C06", "R13.3", WP,
+  """        use_space_size = sum([c.space_size for c in self.placed_component_list])""",
+  """        use_space_size = sum([c.space_size + sum([k.space_size for k in c.child_component_list]) for c in self.placed_component_list])""")
+M("C05-allocator-skips-zero-work-tasks", "C05", "R6.2", PJ,
+  """lambda task: task.state == BaseTaskState.READY or task.state == BaseTaskState.WORKING, self.workflow.task_list""",
+  """lambda task: (task.state == BaseTaskState.READY or task.state == BaseTaskState.WORKING) and task.remaining_work_amount > 1e-10, self.workflow.task_list""")
+M("C19-extract-keyed-by-id", "C19", "R19.3", PD,
+  """        component_set = set()""",
+  """        component_set = {}""",
+  PD,
+  """                component_set.add(component)
+        return list(component_set)""",
+  """                component_set[component.ID] = component
+        return list(component_set.values())""")
+M("C15-priority-rule-or-default", "C15", "R16.2", WF,
+  """EVERY:j.get('worker_priority_rule', -1)""",
+  """j.get('worker_priority_rule') or -1""")
